@@ -313,6 +313,7 @@ class World:
         self.open = {}
         self.blocks = {}      # rel -> list of blocks (None when the text was mutated at text level)
         self.versions = {}    # rel -> earlier texts
+        self.owner = {}       # top-level name -> file that may define it (keeps definitions unique unless shape == "dup")
 
     def text(self, f):
         return self.open[f] if f in self.open else self.disk.get(f)
@@ -323,6 +324,37 @@ def gen_file_blocks(rng, nblocks=None):
     return [gen_block(rng) for _ in range(n)]
 
 
+_KIND_OF = {}
+for _n in PKGS:
+    _KIND_OF[_n] = gen_pkg
+for _n in MODS:
+    _KIND_OF[_n] = gen_mod
+for _n in IFS:
+    _KIND_OF[_n] = gen_if
+for _n in GMODS:
+    _KIND_OF[_n] = gen_gmod
+for _n in GPKGS:
+    _KIND_OF[_n] = gen_gpkg
+TOP_NAMES = PKGS + MODS + IFS + GMODS + GPKGS
+_TOP_DECL = re.compile(r"^(?:pub\s+)?(?:module|package|interface)\s+([A-Za-z_]\w*)", re.M)
+
+
+def declared(text):
+    return _TOP_DECL.findall(text or "")
+
+
+def owned_block(rng, w, f):
+    """a block declaring a name that file f owns and that no file currently declares; else a misc block"""
+    everywhere = set()
+    for g in set(w.disk) | set(w.open):
+        everywhere.update(declared(w.text(g)))
+    cands = [n for n in TOP_NAMES if w.owner.get(n) == f and n not in everywhere]
+    if not cands or rng.random() < 0.08:
+        return gen_misc(rng)
+    n = pick(rng, cands)
+    return _KIND_OF[n](rng, n)
+
+
 def gen_history(rng, repo=None, shape=None):
     """shape in (None, 'edit', 'rename', 'close', 'cycle', 'dup', 'doc', 'corpus') biases the history"""
     shape = shape or pick(rng, ["edit", "edit", "edit", "rename", "close", "cycle", "dup", "doc", "corpus", "break"])
@@ -330,18 +362,31 @@ def gen_history(rng, repo=None, shape=None):
     nfiles = rng.randrange(2, 6)
     files = FILES[:nfiles]
     corpus = corpus_texts(repo) if repo else []
+    names = list(TOP_NAMES)
+    rng.shuffle(names)
+    for i, n in enumerate(names):
+        w.owner[n] = files[i % nfiles]
+    used_corpus = set()
     for f in files:
         if shape == "corpus" and corpus and chance(rng, 0.5):
             w.blocks[f] = None
-            w.disk[f] = pick(rng, corpus)[1]
+            cf, ct = pick(rng, [c for c in corpus if c[0] not in used_corpus] or corpus)
+            used_corpus.add(cf)
+            w.disk[f] = ct
         else:
-            w.blocks[f] = gen_file_blocks(rng)
-            w.disk[f] = render(w.blocks[f])
+            w.blocks[f] = []
+            w.disk[f] = ""
+            for _ in range(pick(rng, [1, 1, 2, 2, 3])):
+                w.blocks[f].append(owned_block(rng, w, f) if shape != "dup" or chance(rng, 0.7) else gen_block(rng))
+                w.disk[f] = render(w.blocks[f])
     if shape == "cycle":
         # two packages referring to each other's constants / structs across files appear and disappear
-        w.blocks[files[0]] = [{"kind": "pkg", "name": "PkgA", "text": "package PkgA {\n    const C0: u32 = 1;\n    const C1: u32 = 2;\n    struct S0 {\n        a: logic<C0>,\n        b: logic<4>,\n    }\n}"}] + gen_file_blocks(rng, 1)
-        w.blocks[files[1]] = [{"kind": "pkg", "name": "PkgB", "text": "package PkgB {\n    const C0: u32 = PkgA::C0 + 1;\n    const C1: u32 = 2;\n    struct S0 {\n        a: logic<C0>,\n        b: PkgA::S0,\n    }\n}"}] + gen_file_blocks(rng, 1)
-        for f in files[:2]:
+        for g in files:
+            w.blocks[g] = [b for b in (w.blocks[g] or []) if b["name"] not in ("PkgA", "PkgB")]
+        w.owner["PkgA"], w.owner["PkgB"] = files[0], files[1]
+        w.blocks[files[0]] = [{"kind": "pkg", "name": "PkgA", "text": "package PkgA {\n    const C0: u32 = 1;\n    const C1: u32 = 2;\n    const KA: u32 = 5;\n    struct S0 {\n        a: logic<C0>,\n        b: logic<4>,\n    }\n}"}] + w.blocks[files[0]]
+        w.blocks[files[1]] = [{"kind": "pkg", "name": "PkgB", "text": "package PkgB {\n    const C0: u32 = PkgA::C0 + 1;\n    const C1: u32 = 2;\n    const KB: u32 = 5;\n    struct S0 {\n        a: logic<C0>,\n        b: PkgA::S0,\n    }\n}"}] + w.blocks[files[1]]
+        for f in files:
             w.disk[f] = render(w.blocks[f])
     if shape == "bgopen":
         # filler files keep the background task busy so that a second didOpen can land in the middle of it
@@ -405,8 +450,21 @@ def gen_history(rng, repo=None, shape=None):
             set_text(f, old)          # undo / repair
             return
         if r < 0.5:
-            nt, _, _ = rename_in_text(rng, t)
-            set_text(f, nt)
+            everywhere = set()
+            for g in set(w.disk) | set(w.open):
+                everywhere.update(declared(w.text(g)))
+            present = [n for n in _NAME_POOL if re.search(r"\b%s\b" % re.escape(n), t)]
+            if present:
+                old = pick(rng, present)
+                if old in TOP_NAMES and shape != "dup":
+                    free = [n for n in TOP_NAMES if _KIND_OF[n] is _KIND_OF[old] and n not in everywhere and n != old]
+                    new = pick(rng, free) if free and chance(rng, 0.6) else old + pick(rng, ["X", "2", "_n"])
+                    if new in w.owner:
+                        w.owner[new] = f
+                    nt, _, _ = rename_in_text(rng, t, old, new)
+                else:
+                    nt, _, _ = rename_in_text(rng, t, old)
+                set_text(f, nt)
             return
         if r < 0.62:
             set_text(f, line_mutation(rng, t))
@@ -419,22 +477,34 @@ def gen_history(rng, repo=None, shape=None):
         bl = list(bl)
         r2 = rng.random()
         if r2 < 0.35 or not bl:
-            bl.insert(rng.randrange(len(bl) + 1), gen_block(rng))
+            bl.insert(rng.randrange(len(bl) + 1), owned_block(rng, w, f) if shape != "dup" else gen_block(rng))
         elif r2 < 0.6:
             del bl[rng.randrange(len(bl))]
         elif r2 < 0.8:
             i = rng.randrange(len(bl))
             b = bl[i]
             g = {"pkg": gen_pkg, "mod": gen_mod, "if": gen_if, "gmod": gen_gmod, "gpkg": gen_gpkg}.get(b["kind"])
-            bl[i] = g(rng, b["name"]) if g else gen_block(rng)
-        else:
-            # copy a block from another file (duplicate definition) or move it here
+            bl[i] = g(rng, b["name"]) if g else owned_block(rng, w, f)
+        elif shape == "dup":
+            # copy a block from another file (duplicate definition)
             others = [g for g in w.blocks if g != f and w.blocks[g]]
             if others:
                 g = pick(rng, others)
                 bl.append(pick(rng, w.blocks[g]))
             else:
                 bl.append(gen_block(rng))
+        else:
+            # move a declaration here: it leaves its file first (the buffer of that file must be open), then appears here
+            others = [g for g in w.open if g != f and w.blocks.get(g)]
+            movable = [(g, b) for g in others for b in w.blocks[g] if b["name"] in w.owner]
+            if movable:
+                g, b = pick(rng, movable)
+                gl = [x for x in w.blocks[g] if x is not b]
+                set_text(g, render(gl) if gl else "// moved away\n", gl)
+                w.owner[b["name"]] = f
+                bl.append(b)
+            else:
+                bl.append(owned_block(rng, w, f))
         set_text(f, render(bl), bl)
 
     # most histories start by opening one or two files
@@ -496,6 +566,9 @@ def gen_history(rng, repo=None, shape=None):
             w.blocks.pop(f, None)
         elif live:
             mutate(pick(rng, live))
+    if not w.open and w.disk:
+        # a server with no open buffer publishes nothing (and a fresh one would not even analyse): end with one open
+        do_open(pick(rng, sorted(w.disk)))
     return hist
 
 
@@ -535,6 +608,50 @@ def final_state(hist):
             opened.pop(st[1], None)
             discarded.discard(st[1])
     return disk, opened, discarded
+
+
+def ever_duplicate(hist):
+    """does some state along the history define a top-level name twice (within a file or across files)?
+    (what the analyzer keeps then depends on the order of analysis: known finding `duplicate-definition-order`)"""
+    disk = dict(hist["files"])
+    op = {}
+
+    def check():
+        seen = set()
+        for f in set(disk) | set(op):
+            for n in declared(op.get(f, disk.get(f))):
+                if n in seen:
+                    return True
+                seen.add(n)
+        return False
+
+    if check():
+        return True
+    for st in hist["steps"]:
+        k = st[0]
+        if k == "open" and st[1] in disk:
+            op[st[1]] = disk[st[1]]
+        elif k == "open_bg":
+            for f in st[1:3]:
+                if f in disk:
+                    op[f] = disk[f]
+        elif k == "change" and st[1] in op:
+            op[st[1]] = st[2]
+        elif k == "save" and st[1] in op:
+            disk[st[1]] = op[st[1]]
+        elif k == "close":
+            op.pop(st[1], None)
+        elif k == "rename" and st[1] in disk and st[2] not in disk:
+            if st[1] in op:
+                disk[st[1]] = op[st[1]]
+                op[st[2]] = op.pop(st[1])
+            disk[st[2]] = disk.pop(st[1])
+        elif k == "delete":
+            disk.pop(st[1], None)
+            op.pop(st[1], None)
+        if check():
+            return True
+    return False
 
 
 def shape_tags(hist):
